@@ -5,7 +5,7 @@ CONSTANTS
   MaxPool = 0
   MaxSize = 0
   Raise = TRUE
-  Devs = {"UnnamedNoAlign", "UnionUnnamedIgnored", "PackedNoFinalAlign"}
+  Devs = {}
   Widths = {}
   Emit = FALSE
   CharSigned = FALSE
